@@ -207,4 +207,36 @@ theorem C12_keyword_iff_enabled (s : S) :
   · simp; intro _ h; exact absurd h (by decide +kernel)
   · simp
 
+/-- **C12_requiretls_honoured_iff_advertised.**  The MAIL parameter REQUIRETLS is accepted by the parameter switch — as the MAIL
+    handler calls it, with `effCfg` — exactly when the capability list of that connection state contains REQUIRETLS; otherwise it
+    is refused with 504, whatever follows it.  (Before the repair a server with the extension enabled accepted the parameter on a
+    plaintext connection, where it does not advertise it.) -/
+theorem C12_requiretls_honoured_iff_advertised (s : S) (rest : List (Bytes × Bytes)) (o : MailOpts) (bm : Bool) :
+    ("REQUIRETLS".b ∈ (caps s).map keyword →
+      mailParams (effCfg s) (("REQUIRETLS".b, []) :: rest) o bm = mailParams (effCfg s) rest { o with requireTLS := true } bm) ∧
+    ("REQUIRETLS".b ∉ (caps s).map keyword →
+      mailParams (effCfg s) (("REQUIRETLS".b, []) :: rest) o bm = .refuse 504 ⟨5, 5, 4⟩ "REQUIRETLS is not implemented") := by
+  have hk := (C12_keyword_iff_enabled s).2.1
+  have k1 : ("REQUIRETLS".b == "SIZE".b) = false := by decide +kernel
+  have k2 : ("REQUIRETLS".b == "SMTPUTF8".b) = false := by decide +kernel
+  have k3 : ("REQUIRETLS".b == "REQUIRETLS".b) = true := by decide +kernel
+  constructor
+  · intro h
+    have he : (effCfg s).reqtls = true := by
+      have := hk.mp h
+      simp only [effCfg, Bool.and_eq_true] at this ⊢
+      exact ⟨this.2, this.1⟩
+    rw [mailParams]
+    simp only [k1, k2, k3, Bool.false_eq_true, if_false, if_true, he, Bool.not_true, List.isEmpty_nil]
+  · intro h
+    have he : (effCfg s).reqtls = false := by
+      cases hv : (effCfg s).reqtls with
+      | false => rfl
+      | true =>
+        exfalso; apply h; apply hk.mpr
+        simp only [effCfg, Bool.and_eq_true] at hv ⊢
+        exact ⟨hv.2, hv.1⟩
+    rw [mailParams]
+    simp only [k1, k2, k3, Bool.false_eq_true, if_false, if_true, he, Bool.not_false]
+
 end SmtpV.Props.C12
